@@ -234,9 +234,66 @@ def run(ctx):
             ret = [dotted(r.value) for r in node.body if isinstance(r, ast.Return)]
             ladder.append((op, ast.unparse(node.test.comparators[0]), ret[0] if ret else None))
             node = node.orelse[0] if node.orelse and isinstance(node.orelse[0], ast.If) else None
-        ctx.ob("R3.dtype-ladder", rel, q, str(ladder),
-               ladder == [("LtE", "_size_uint8", "np.uint8"), ("LtE", "_size_uint16", "np.uint16"), ("LtE", "_size_uint32", "np.uint32")],
-               "an alphabet of exactly 256 symbols fits uint8 (codes 0..255); thresholds must be <= size", f.lineno)
+        # decided arithmetically on the summary: the rung that returns an unsigned type of b bits accepts exactly the sizes
+        # n <= 2**b (codes 0 .. n-1 fit), whatever names and offsets the code uses
+        from ..exprnorm import summarize as _sm
+        src_ = ctx.src(rel)
+        pn = param_names(f)[-1]
+
+        def val(e, env_):
+            """integer value of a constant expression (module constants, np.iinfo(np.uintK).max)"""
+            if isinstance(e, ast.Constant) and isinstance(e.value, int):
+                return e.value
+            if isinstance(e, ast.Name):
+                if e.id in env_:
+                    return val(env_[e.id], env_)
+                return val(src_.module_assign(e.id), env_)
+            if isinstance(e, ast.Attribute) and e.attr in ("max", "min") and isinstance(e.value, ast.Call) and call_name(e.value) == "np.iinfo":
+                t_ = (dotted(e.value.args[0]) or "").split(".")[-1]
+                bits = int("".join(ch for ch in t_ if ch.isdigit()))
+                signed = not t_.startswith("uint")
+                return (2 ** (bits - 1) - 1 if signed else 2 ** bits - 1) if e.attr == "max" else (-(2 ** (bits - 1)) if signed else 0)
+            if isinstance(e, ast.BinOp) and isinstance(e.op, (ast.Add, ast.Sub, ast.Mult, ast.Pow)):
+                a_, b_ = val(e.left, env_), val(e.right, env_)
+                return {ast.Add: a_ + b_, ast.Sub: a_ - b_, ast.Mult: a_ * b_, ast.Pow: a_ ** b_}[type(e.op)]
+            raise AnalysisError(f"anchor vanished: dtype ladder of {q} uses a non-constant bound {ast.unparse(e)}")
+
+        def lin(e, env_):
+            """(coefficient of the size parameter, constant)"""
+            if isinstance(e, ast.Name) and e.id == pn:
+                return 1, 0
+            if isinstance(e, ast.BinOp) and isinstance(e.op, (ast.Add, ast.Sub)):
+                (a1, c1), (a2, c2) = lin(e.left, env_), lin(e.right, env_)
+                return (a1 + a2, c1 + c2) if isinstance(e.op, ast.Add) else (a1 - a2, c1 - c2)
+            return 0, val(e, env_)
+        sm_ = _sm(f)
+        rungs = []
+        e_ = sm_.result
+        while isinstance(e_, ast.IfExp):
+            t_ = e_.test
+            ctx.need(isinstance(t_, ast.Compare) and len(t_.ops) == 1, f"rung test of {q}")
+            (a1, c1), (a2, c2) = lin(t_.left, {}), lin(t_.comparators[0], {})
+            # a1*n + c1 OP a2*n + c2   ->   n OP' bound     (only n on one side occurs in practice)
+            ctx.need((a1, a2) in ((1, 0), (0, 1)), f"rung test of {q} is linear in the alphabet size")
+            op = type(t_.ops[0])
+            if (a1, a2) == (0, 1):
+                op = {ast.Lt: ast.Gt, ast.LtE: ast.GtE, ast.Gt: ast.Lt, ast.GtE: ast.LtE}.get(op, op)
+                bound = c1 - c2
+            else:
+                bound = c2 - c1
+            max_n = bound if op is ast.LtE else bound - 1 if op is ast.Lt else None
+            rungs.append((max_n, (dotted(e_.body) or "?").split(".")[-1]))
+            e_ = e_.orelse
+        last = (dotted(e_) or "?").split(".")[-1] if e_ is not None else "?"
+        want = [(2 ** 8, "uint8"), (2 ** 16, "uint16"), (2 ** 32, "uint32")]
+        ctx.ob("R3.dtype-ladder", rel, q, f"largest alphabet size per type: {rungs}, else {last}", rungs == want and last == "uint64",
+               "an alphabet of n symbols has the codes 0..n-1: it fits an unsigned type of b bits exactly when n <= 2**b "
+               "(257 symbols need uint16: the code 256 would wrap to 0 in uint8)", f.lineno)
+
+    # positions and codes arrive as NumPy integers as often as Python ints
+    from ..lints import integer_tests_accept_numpy
+    integer_tests_accept_numpy(ctx, SEQ, "R6.integer-test-accepts-numpy", 1)
+    integer_tests_accept_numpy(ctx, CODON, "R6.integer-test-accepts-numpy", 2)
 
     # ---------------- R4 codec ------------------------------------------------
     cd = ctx.src(CODEC)
@@ -299,7 +356,8 @@ def run(ctx):
     idx = ClassIndex(ctx, [COPYABLE, SEQ, TYPES, I3D, PB])
     seqs = ["GeneralSequence", "NucleotideSequence", "ProteinSequence", "PositionalSequence",
             "PurePositionalSequence", "I3DSequence", "ProteinBlocksSequence"]
-    copycontract.check(ctx, idx, seqs, "R5")
+    copycontract.check(ctx, idx, seqs, "R5", immutable={
+        ("GeneralSequence", "_alphabet"): "alphabets are immutable once built and are shared between sequences by design"})
     cp = s.func("Sequence.copy")
     fresh = [st for st in stmts(cp) if isinstance(st, ast.Assign) and ast.unparse(st.targets[0]) == "clone.code"]
     ctx.ob("R5.fresh", SEQ, "Sequence.copy", "clone.code = np.copy(self.code)",
@@ -466,6 +524,14 @@ def shallow_copy_mutation(ctx, rule, rels):
 
 
 MUTANTS = [
+    Mutant("setitem-python-int-only", SEQ, "        if isinstance(index, numbers.Integral):\n            # Expect a single symbol\n", "        if isinstance(index, int):\n            # Expect a single symbol\n",
+           "R6.integer-test-accepts-numpy", "Sequence.__setitem__"),
+    Mutant("regress-codon-table-int", CODON, "        elif isinstance(item, Integral):\n            # Code for amino acid", "        elif isinstance(item, int):\n            # Code for amino acid",
+           "R6.integer-test-accepts-numpy", "CodonTable.__getitem__"),
+    Mutant("dtype-ladder-max-code", SEQ, "        if alphabet_size <= _size_uint8:\n            return np.uint8\n        elif alphabet_size <= _size_uint16:\n",
+           "        max_code = alphabet_size - 1\n        if max_code <= _size_uint8:\n            return np.uint8\n        elif max_code <= _size_uint16:\n", "R3.dtype-ladder"),
+    Mutant("dtype-ladder-max-code-correct", SEQ, "        if alphabet_size <= _size_uint8:\n            return np.uint8\n        elif alphabet_size <= _size_uint16:\n",
+           "        max_code = alphabet_size - 1\n        if max_code < _size_uint8:\n            return np.uint8\n        elif max_code <= _size_uint16 - 1:\n", "R3.dtype-ladder", kind="silent"),
     Mutant("codon-numbers-updated-in-place", CODON, "            numbers = numbers - digit * val\n", "            numbers -= digit * val\n", "R1.codon-input-untouched"),
     Mutant("encode-lookup-before-try", ALPH, "        try:\n            return self._symbol_dict[symbol]\n        except KeyError:",
            "        code = self._symbol_dict[symbol]\n        try:\n            return code\n        except KeyError:", "R6.alphabet-error", "Alphabet.encode"),
